@@ -66,8 +66,8 @@ SIZE = {
     "S1ext": [b"1;a=b", b"1;a", b'1;a="b"', b"1;a=b;c=d"],
     "S1lz": [b"01", b"0001", b"00000000000000000001"],
     "S1bws": [b"1 ;a=b", b"1\t;a", b"1 \t ;a"],
-    "Sbad": [b"1x", b"0x1", b"+1", b"-1", b" 1", b"1 ", b"1_0", b"1\t", b"g", b";a=b", b"1\x0b", b"\x0c1",
-             b"1 2", b"\xb2", b"1.0", b"0x"],
+    "Sbad": [b"1x", b"-1", b"1_0", b"g", b";a=b", b"1 2", b"\xb2", b"1.0", b"0x", b"x1", b"1h", b"--1"],
+    "Sbad1": [b"+1", b"0x1", b" 1", b"1 ", b"1\t", b"\t1", b"0X1", b"1\x0b", b"\x0c1", b"+01", b" 1 "],
     "Sempty": [b""],
     "Z0": [b"0"], "Z0ext": [b"0;a=b", b"0 ;a"], "Z00": [b"00", b"000"],
     "S1extlf": [b"1;a\nb", b"1;a\rb"],
@@ -142,6 +142,9 @@ def concretize(ms, variant=0, cut=None):
                     _x(c)
                 if ch["term"]:
                     c.crlf()
+                else:
+                    for j in range(ch.get("junk", 0)):
+                        c.emit("J", b"ZY"[j % 2:j % 2 + 1])
             if m["last"] != "none":
                 p = pad["c"] if not m["chunks"] else 0
                 _size(c, m["last"], v, p)
